@@ -575,3 +575,31 @@ package core
 //@   assumed
 //@   pure
 //@   defines s == recRaw(r, i)
+
+//@ property C14
+// ---- records: the size class chosen by the builder is the one every reader derives from the length -----
+// A record is: 2 byte header (mode in the top 2 bits, number of fields in the low 14), then 1+nfields
+// offsets of 1, 2 or 4 bytes depending on the mode, then the field data. The mode is a function of the
+// total length, and the total length depends on the offset width: tblength must pick a length whose own
+// mode is the width it was computed with - otherwise the offsets are written with one width and read
+// with another.
+//@ spec recMode(length int) int = length == 0 ? 0 : length < 256 ? 1 : length < 65536 ? 2 : 3
+//@ spec modeWidth(m int) int = m == 1 ? 1 : m == 2 ? 2 : 4
+//@ func mode(length) (r)
+//@   ensures! r == recMode(length)
+//@ func tblength(nfields, datasize) (r)
+//@   requires 0 <= nfields && nfields <= 16383 && 0 <= datasize && datasize <= 1000000000
+//@   ensures! empty: nfields == 0 ==> r == 1
+//@   ensures! self_consistent: nfields > 0 ==> r == 2 + modeWidth(recMode(r)) * (1 + nfields) + datasize
+//@   ensures! smallest: nfields > 0 && r >= 256 ==> 2 + (1 + nfields) + datasize >= 256
+//@   ensures! smallest16: nfields > 0 && r >= 65536 ==> 2 + 2 * (1 + nfields) + datasize >= 65536
+// the header word written by buildHeader (mode<<14 | nfields, big endian) is decoded by Count and
+// Record.mode to the same two numbers
+//@ lemma! header_word_roundtrip(m uint16, n uint16): 1 <= m && m <= 3 && n <= 16383 ==> ((((m << 14) | n) >> 8) >> 6) == m && (((((m << 14) | n) >> 8) << 8) + (((m << 14) | n) & 255)) & 16383 == n
+//@   mode bv
+//@ func (r Record) Count() (n)
+//@   requires len(r) == 0 || r[0] == 0 || len(r) >= 2
+//@   ensures! n == ((len(r) == 0 || r[0] == 0) ? 0 : (r[0] * 256 + r[1]) % 16384)
+//@ func (r Record) mode() (m)
+//@   requires len(r) >= 1
+//@   ensures! m == r[0] / 64
